@@ -436,3 +436,21 @@ class Gen:
 def required_unmodelled(G, idx):
     """names of required fields whose type the model cannot read"""
     return [f["name"] for f in G.S.structs[idx]["fields"] if not f["flags"] & 5 and not G.optional(f) and not G.modelled(f["ty"])]
+
+
+# default values of the standard (ISO 32000-1 tables 8, 11, 15, 20, 30, 89, 95, 117, 122, 153, 164, 218, 220, 232, 234, 321)
+# for the entries the typed models declare a default for — written from the standard, not from the code
+SPEC_DEFAULTS = {
+    ("LZWFlateParams", "Predictor"): 1, ("LZWFlateParams", "Colors"): 1, ("LZWFlateParams", "BitsPerComponent"): 8,
+    ("LZWFlateParams", "Columns"): 1, ("LZWFlateParams", "EarlyChange"): 1,
+    ("CCITTFaxDecodeParams", "K"): 0, ("CCITTFaxDecodeParams", "EndOfLine"): False, ("CCITTFaxDecodeParams", "EncodedByteAlign"): False,
+    ("CCITTFaxDecodeParams", "Columns"): 1728, ("CCITTFaxDecodeParams", "Rows"): 0, ("CCITTFaxDecodeParams", "EndOfBlock"): True,
+    ("CCITTFaxDecodeParams", "BlackIs1"): False, ("CCITTFaxDecodeParams", "DamagedRowsBeforeError"): 0,
+    ("CIDFont", "DW"): 1000, ("FontDescriptor", "Leading"): 0, ("FontDescriptor", "XHeight"): 0, ("FontDescriptor", "StemV"): 0,
+    ("FontDescriptor", "StemH"): 0, ("FontDescriptor", "AvgWidth"): 0, ("FontDescriptor", "MaxWidth"): 0, ("FontDescriptor", "MissingWidth"): 0,
+    ("Page", "Rotate"): 0, ("ImageDict", "ImageMask"): False, ("ImageDict", "Interpolate"): False, ("FormDict", "FormType"): 1,
+    ("InteractiveFormDictionary", "NeedAppearances"): False, ("InteractiveFormDictionary", "SigFlags"): 0,
+    ("SeedValueDictionary", "Ff"): 0, ("Annot", "F"): 0, ("FieldDictionary", "Ff"): 0, ("FieldDictionary", "SigFlags"): 0,
+    ("Outlines", "Count"): 0, ("MarkInformation", "Marked"): False, ("MarkInformation", "UserProperties"): False,
+    ("MarkInformation", "Suspects"): False, ("RawFunction", "Order"): 1,
+}
